@@ -295,7 +295,7 @@ def run(ctx):
             if some_t in body and none_t not in body:
                 through = set(calls(un, r'String::push$')) | set(calls(un, r'ArxmlParser.*::optional_error$'))
                 back = [(bi, un.nstmts(bi)) for bi in body if h in un.succs(bi)]
-                exits = [(sx, 0) for bi in body for sx in un.succs(bi) if sx not in body and not un.blocks[sx]['cleanup'] and bi != p_[0] and sx != none_t]
+                exits = [(sx, 0) for bi in body for sx in un.succs(bi) if sx not in body and not un.blocks[sx]['cleanup'] and bi != p_[0] and sx != none_t and un.blocks[sx]['term']['k'] != 'unreachable']
                 import panics as _PN
                 reached = _PN.flag_reach(un, (some_t, 0), through, within=body)
                 oka = bool(through) and not any(t_ in reached for t_ in [(h, 0)] + exits)
